@@ -57,7 +57,8 @@ VARIABLES
     result,     \* result of the command being returned (phase "ret")
     \* ---- ghost / observation variables (hidden by the VIEW of the MC configs)
     synced,     \* sequence of times passed to synchronize since init
-    fired,      \* sequence of handler starts [time, due, model, prog, origin, ep, sid, key, nsync]
+    fired,      \* fired[m]: sequence of the messages m started processing [time, due, prog, origin, ep, sid, key, nsync]
+                \* (kept per model so that independent steps of different models commute)
     sched,      \* set of accepted scheduling requests [sid, first, per, key, cls, target, origin, at]
     cancelPos,  \* key id -> [n |-> Len(fired), t |-> now] when it was (first) cancelled
     termAt      \* [now, nfired, nsynced] when the simulation terminated (or NotTerminated)
@@ -146,7 +147,7 @@ DirectMsg(prog, cls, origin) ==
 (* Ghost: remember where a key was first cancelled. *)
 NoteCancel(k) ==
     cancelPos' = IF k = 0 \/ k \in DOMAIN cancelPos THEN cancelPos
-                 ELSE cancelPos @@ (k :> [n |-> Len(fired), t |-> now, ph |-> phase])
+                 ELSE cancelPos @@ (k :> [n |-> [m \in Models |-> Len(fired[m])], t |-> now, ph |-> phase])
 
 RECURSIVE Deliver(_, _, _)
 (* Append, for every action of the sequence acts (one origin group), its   *)
@@ -187,7 +188,7 @@ Init ==
     /\ pendErr = {}
     /\ result = ROk
     /\ synced = <<0>>          \* init synchronises once on the start time
-    /\ fired = <<>>
+    /\ fired = [m \in Models |-> <<>>]
     /\ sched = {}
     /\ cancelPos = <<>>
     /\ termAt = NotTerminated
@@ -373,10 +374,10 @@ HTake(m, s) ==
        IN  /\ ~(msg.cls = "ev" /\ msg.key # 0 /\ msg.key \in cancelled)
            /\ mbox' = [mbox EXCEPT ![m][s] = Tail(@)]
            /\ running' = [running EXCEPT ![m] = [prog |-> msg.prog, pc |-> 0, from |-> s]]
-           /\ fired' = Append(fired, [time |-> now, due |-> msg.due, model |-> m, prog |-> msg.prog,
+           /\ fired' = [fired EXCEPT ![m] = Append(@, [time |-> now, due |-> msg.due, model |-> m, prog |-> msg.prog,
                                       origin |-> msg.origin, ep |-> msg.ep, from |-> s,
                                       sid |-> msg.sid, key |-> msg.key, akey |-> msg.akey,
-                                      cls |-> msg.cls, nsync |-> Len(synced)])
+                                      cls |-> msg.cls, nsync |-> Len(synced)])]
     /\ UNCHANGED <<now, queue, nextEpoch, cancelled, slots, terminated, phase, cmd,
                    blocked, orphan, pendErr, result, synced, sched, cancelPos, termAt>>
 
@@ -388,10 +389,10 @@ HTakeStart(m, s) ==
        IN  /\ ~(msg.cls = "ev" /\ msg.key # 0 /\ msg.key \in cancelled)
            /\ mbox' = [mbox EXCEPT ![m][s] = Tail(@)]
            /\ running' = [running EXCEPT ![m] = [prog |-> msg.prog, pc |-> 1, from |-> s]]
-           /\ fired' = Append(fired, [time |-> now, due |-> msg.due, model |-> m, prog |-> msg.prog,
+           /\ fired' = [fired EXCEPT ![m] = Append(@, [time |-> now, due |-> msg.due, model |-> m, prog |-> msg.prog,
                                       origin |-> msg.origin, ep |-> msg.ep, from |-> s,
                                       sid |-> msg.sid, key |-> msg.key, akey |-> msg.akey,
-                                      cls |-> msg.cls, nsync |-> Len(synced)])
+                                      cls |-> msg.cls, nsync |-> Len(synced)])]
     /\ UNCHANGED <<now, queue, nextEpoch, cancelled, slots, terminated, phase, cmd,
                    blocked, orphan, pendErr, result, synced, sched, cancelPos, termAt>>
 
@@ -519,7 +520,7 @@ DReturn ==
     /\ orphan' = 0
     /\ pendErr' = {}
     /\ termAt' = IF terminated /\ termAt = NotTerminated
-                 THEN [now |-> now, nfired |-> Len(fired), nsynced |-> Len(synced)]
+                 THEN [now |-> now, nfired |-> [m \in Models |-> Len(fired[m])], nsynced |-> Len(synced)]
                  ELSE termAt
     /\ UNCHANGED <<now, queue, nextEpoch, cancelled, slots, terminated, result,
                    synced, fired, sched, cancelPos>>
